@@ -233,3 +233,167 @@ GROUPS = [
     ("Utils", g_utils, ["nflows/utils/torchutils.py"]),
     ("SplineRQ", g_spline_rq, ["nflows/transforms/splines/rational_quadratic.py"]),
 ]
+
+
+# ---------------------------------------------------------------- MADE (both copies)
+def nat_expr(e, env):
+    """integer expressions over nat: names, literals, + - * // %, max/min"""
+    if isinstance(e, ast.Constant) and isinstance(e.value, int) and not isinstance(e.value, bool) and e.value >= 0:
+        return str(e.value)
+    if isinstance(e, ast.Name):
+        if e.id in env:
+            return env[e.id]
+        raise Untranslatable("free name %s in integer expression" % e.id, e)
+    if isinstance(e, ast.BinOp):
+        ops = {ast.Add: "(%s + %s)", ast.Sub: "(%s - %s)", ast.Mult: "(%s * %s)", ast.FloorDiv: "(%s / %s)",
+               ast.Mod: "(%s mod %s)"}
+        for k, fmt in ops.items():
+            if isinstance(e.op, k):
+                return fmt % (nat_expr(e.left, env), nat_expr(e.right, env))
+        raise Untranslatable("integer operator", e)
+    if isinstance(e, ast.Call) and isinstance(e.func, ast.Name) and e.func.id in ("max", "min") and len(e.args) == 2:
+        return "(Nat.%s %s %s)" % (e.func.id, nat_expr(e.args[0], env), nat_expr(e.args[1], env))
+    raise Untranslatable("integer expression form", e)
+
+
+def nat_cmp(op, node):
+    # mask = (out_degrees[..., None] OP in_degrees)
+    table = {ast.Gt: "Nat.ltb din dout", ast.GtE: "Nat.leb din dout", ast.Lt: "Nat.ltb dout din",
+             ast.LtE: "Nat.leb dout din", ast.Eq: "Nat.eqb dout din"}
+    for k, v in table.items():
+        if isinstance(op, k):
+            return v
+    raise Untranslatable("mask comparison operator", node)
+
+
+def made_defs(repo, rel, prefix):
+    src = Source(repo, rel)
+    defs = []
+    # _get_input_degrees: torch.arange(1, in_features + 1)  ->  degree of input j
+    fn = src.func("_get_input_degrees")
+    ret = [s for s in fn.body if isinstance(s, ast.Return)]
+    if len(ret) != 1:
+        raise Untranslatable("_get_input_degrees form", fn)
+    call = ret[0].value
+    if not (isinstance(call, ast.Call) and ast.unparse(call.func) == "torch.arange" and len(call.args) == 2
+            and not call.keywords):
+        raise Untranslatable("_get_input_degrees: expected torch.arange(lo, hi)", call)
+    arg = fn.args.args[0].arg
+    lo = nat_expr(call.args[0], {arg: "n"})
+    hi = nat_expr(call.args[1], {arg: "n"})
+    defs.append((prefix + "input_degree", "Definition %sinput_degree (n j : nat) : nat := %s + j.\n" % (prefix, lo)))
+    defs.append((prefix + "input_count", "Definition %sinput_count (n : nat) : nat := %s - %s.\n" % (prefix, hi, lo)))
+    m = src.method("MaskedLinear", "_get_mask_and_degrees")
+    top = [s for s in m.body if isinstance(s, ast.If)]
+    if len(top) != 1 or not (isinstance(top[0].test, ast.Name) and top[0].test.id == "is_output"):
+        raise Untranslatable("_get_mask_and_degrees: expected `if is_output:`", m)
+    out_branch, hid_branch = top[0].body, top[0].orelse
+
+    def mask_cmp(stmts, what):
+        hits = [s for s in stmts if isinstance(s, ast.Assign) and isinstance(s.targets[0], ast.Name)
+                and s.targets[0].id == "mask"]
+        if len(hits) != 1:
+            raise Untranslatable("%s: expected one mask assignment" % what, m)
+        v = hits[0].value
+        if not (isinstance(v, ast.Call) and isinstance(v.func, ast.Attribute) and v.func.attr == "float"
+                and isinstance(v.func.value, ast.Compare) and len(v.func.value.ops) == 1
+                and ast.unparse(v.func.value.left) == "out_degrees[..., None]"
+                and ast.unparse(v.func.value.comparators[0]) == "in_degrees"):
+            raise Untranslatable("%s: mask form" % what, hits[0])
+        return nat_cmp(v.func.value.ops[0], hits[0])
+
+    defs.append((prefix + "output_cmp", "Definition %soutput_cmp (dout din : nat) : bool := %s.\n"
+                 % (prefix, mask_cmp(out_branch, "output"))))
+    defs.append((prefix + "hidden_cmp", "Definition %shidden_cmp (dout din : nat) : bool := %s.\n"
+                 % (prefix, mask_cmp(hid_branch, "hidden"))))
+    # output degrees: tile(_get_input_degrees(af), out_features // af)
+    od = [s for s in out_branch if isinstance(s, ast.Assign) and isinstance(s.targets[0], ast.Name)
+          and s.targets[0].id == "out_degrees"]
+    if len(od) != 1:
+        raise Untranslatable("output: out_degrees assignment", m)
+    c = od[0].value
+    if not (isinstance(c, ast.Call) and ast.unparse(c.func) == "torchutils.tile" and len(c.args) == 2
+            and ast.unparse(c.args[0]) == "_get_input_degrees(autoregressive_features)"):
+        raise Untranslatable("output: expected torchutils.tile(_get_input_degrees(autoregressive_features), k)", od[0])
+    defs.append((prefix + "output_reps", "Definition %soutput_reps (out_features af : nat) : nat := %s.\n"
+                 % (prefix, nat_expr(c.args[1], {"out_features": "out_features", "autoregressive_features": "af"}))))
+    # hidden degrees: sequential branch
+    rnd = [s for s in hid_branch if isinstance(s, ast.If) and isinstance(s.test, ast.Name) and s.test.id == "random_mask"]
+    if len(rnd) != 1:
+        raise Untranslatable("hidden: expected `if random_mask:`", m)
+    env = {"autoregressive_features": "af", "out_features": "out_features"}
+    seq_lets = []
+    deg = None
+    for s in rnd[0].orelse:
+        if not (isinstance(s, ast.Assign) and isinstance(s.targets[0], ast.Name)):
+            raise Untranslatable("hidden sequential: statement form", s)
+        t = s.targets[0].id
+        if t == "out_degrees":
+            v = s.value
+            # torch.arange(out_features) % a + b   read per unit u
+            def unit(e):
+                if isinstance(e, ast.Call) and ast.unparse(e) == "torch.arange(out_features)":
+                    return "u"
+                if isinstance(e, ast.BinOp):
+                    ops = {ast.Add: "(%s + %s)", ast.Sub: "(%s - %s)", ast.Mult: "(%s * %s)",
+                           ast.FloorDiv: "(%s / %s)", ast.Mod: "(%s mod %s)"}
+                    for k, fmt in ops.items():
+                        if isinstance(e.op, k):
+                            return fmt % (unit(e.left), unit(e.right))
+                return nat_expr(e, env)
+            deg = unit(v)
+        else:
+            nm = "l_" + t.strip("_")
+            seq_lets.append((nm, nat_expr(s.value, env)))
+            env[t] = nm
+    if deg is None:
+        raise Untranslatable("hidden sequential: out_degrees not assigned", m)
+    body = "".join("  let %s := %s in\n" % kv for kv in seq_lets) + "  " + deg
+    defs.append((prefix + "seq_degree", "Definition %sseq_degree (af out_features u : nat) : nat :=\n%s.\n" % (prefix, body)))
+    # random branch: bounds of randint
+    env = {"autoregressive_features": "af", "out_features": "out_features"}
+    low = high = None
+    for s in rnd[0].body:
+        if isinstance(s, ast.Assign) and isinstance(s.targets[0], ast.Name) and s.targets[0].id == "min_in_degree":
+            if ast.unparse(s.value) == "torch.min(in_degrees).item()":
+                env["min_in_degree"] = "min_in"
+            else:
+                env["min_in_degree"] = nat_expr(s.value, env)
+        elif isinstance(s, ast.Assign) and isinstance(s.targets[0], ast.Name) and s.targets[0].id == "out_degrees":
+            c = s.value
+            if not (isinstance(c, ast.Call) and ast.unparse(c.func) == "torch.randint"):
+                raise Untranslatable("hidden random: expected torch.randint", s)
+            kws = {k.arg: k.value for k in c.keywords}
+            low = nat_expr(kws["low"], env)
+            high = nat_expr(kws["high"], env)
+        else:
+            raise Untranslatable("hidden random: statement form", s)
+    if low is None:
+        raise Untranslatable("hidden random: randint bounds", m)
+    defs.append((prefix + "random_low", "Definition %srandom_low (af min_in : nat) : nat := %s.\n" % (prefix, low)))
+    defs.append((prefix + "random_high", "Definition %srandom_high (af : nat) : nat := %s.\n" % (prefix, high)))
+    # MaskedLinear.forward must be F.linear(x, self.weight * self.mask, self.bias)
+    fw = src.method("MaskedLinear", "forward")
+    body = [s for s in fw.body if not (isinstance(s, ast.Expr) and isinstance(s.value, ast.Constant))]
+    ok = (len(body) == 1 and isinstance(body[0], ast.Return)
+          and ast.unparse(body[0].value) in ("F.linear(x, self.weight * self.mask, self.bias)",
+                                             "F.linear(x, self.mask * self.weight, self.bias)"))
+    if not ok:
+        raise Untranslatable("MaskedLinear.forward is not F.linear(x, self.weight * self.mask, self.bias)", fw)
+    defs.append((prefix + "forward_uses_masked_weight",
+                 "Definition %sforward_uses_masked_weight : bool := true.\n" % prefix))
+    return defs
+
+
+def g_made_t(repo):
+    return made_defs(repo, "nflows/transforms/made.py", "madeT_"), "From Coq Require Import Arith.\nLocal Open Scope nat_scope.\n\n"
+
+
+def g_made_n(repo):
+    return made_defs(repo, "nflows/nn/nde/made.py", "madeN_"), "From Coq Require Import Arith.\nLocal Open Scope nat_scope.\n\n"
+
+
+GROUPS += [
+    ("MadeT", g_made_t, ["nflows/transforms/made.py"]),
+    ("MadeN", g_made_n, ["nflows/nn/nde/made.py"]),
+]
